@@ -263,8 +263,16 @@ TOK = re.compile(r'"(?:[^"\\]|\\.|"")*"|/\*.*?\*/|//[^\n]*|[^\s"]+', re.S)
 
 
 def sub_blocks(text):
-    """(start, end) character ranges of the /begin X ... /end X blocks below MODULE level (children of MODULE and deeper),
-    the A2ML block (raw text with a syntax of its own, family a2ml) left out"""
+    """(tag, start, end) character ranges of the items below MODULE level (children of MODULE and deeper): the
+    /begin X ... /end X blocks and the keyword items (a child tag of the enclosing element without /begin, up to the next
+    child tag, /begin or /end); the A2ML block (raw text with a syntax of its own, family a2ml) and IF_DATA content left out"""
+    import json
+    global _GRAMMAR
+    try:
+        _GRAMMAR
+    except NameError:
+        with open(os.path.join(vlib.VERIF, "grammar", "grammar.json")) as f:
+            _GRAMMAR = json.load(f)["elements"]
     out, stack = [], []
     toks = [(m.group(0), m.start(), m.end()) for m in TOK.finditer(text)]
     i = 0
@@ -276,10 +284,19 @@ def sub_blocks(text):
             continue
         if t == "/end":
             tag, a0 = stack.pop()
-            if len(stack) >= 2 and tag != "A2ML" and not any(x[0] == "A2ML" for x in stack):
+            if len(stack) >= 2 and tag != "A2ML" and not any(x[0] in ("A2ML", "IF_DATA") for x in stack):
                 out.append((tag, a0, toks[i + 1][2]))
             i += 2
             continue
+        if len(stack) >= 3 and not any(x[0] in ("A2ML", "IF_DATA") for x in stack):
+            kids = {c["tag"] for c in _GRAMMAR.get(stack[-1][0], {}).get("children", [])}
+            if t in kids:
+                j = i + 1
+                while j < len(toks) and toks[j][0] not in ("/begin", "/end") and toks[j][0] not in kids:
+                    j += 1
+                out.append((t, a, toks[j - 1][2]))
+                i = j
+                continue
         i += 1
     return out
 
